@@ -796,6 +796,15 @@ pub(super) fn bl(
         // get operands
         let dst = operand_load(block, &instruction.operands()[0], 64)?;
 
+        // The target is read before the link register is written (`blr x30`).
+        let dst = if dst.get_constant().is_some() {
+            dst
+        } else {
+            let temp = temp0(instruction, 64);
+            block.assign(temp.clone(), dst);
+            il::Expression::Scalar(temp)
+        };
+
         block.assign(
             scalar!("x30"),
             il::expr_const(instruction.address().wrapping_add(4), 64),
